@@ -9,32 +9,14 @@ structure PodsCtx (setName : String) (P : List CPod) : Prop where
   own : ∀ c ∈ P, c.owner = .self ∧ c.member = true ∧ c.selMatch = true ∧ c.name = canonicalName setName c.pod.ord ∧
     0 ≤ c.pod.ord ∧ c.pod.stOk = true ∧ c.pod.created = true
   ords : (P.map (·.pod.ord)).Nodup
-  idpos : IdPos P
+  ids : IdOk P
   small : P.length ≤ freshId
   settled : ∀ c ∈ P, c.pod.terminating = false ∧ (c.pod.fs = true ∨ c.pod.runningAndReady = true)
 
 namespace PodsCtx
 variable {setName : String} {P : List CPod}
 
-theorem snap (hc : PodsCtx setName P) : Snap (P.map (·.pod)) := by
-  refine ⟨?_, ?_, ?_, ?_⟩
-  · intro p hp
-    rw [List.mem_map] at hp
-    obtain ⟨c, hcm, rfl⟩ := hp
-    exact (hc.own c hcm).2.2.2.2.2.2
-  · rw [List.map_map]; exact hc.ords
-  · intro k p hk
-    rw [List.getElem?_map] at hk
-    cases hck : P[k]? with
-    | none => rw [hck] at hk; cases hk
-    | some c =>
-      rw [hck] at hk
-      simp only [Option.map_some, Option.some.injEq] at hk
-      rw [← hk]; exact hc.idpos k c hck
-  · rw [List.length_map]; exact hc.small
-
-theorem id_lt (hc : PodsCtx setName P) {c : CPod} (hm : c ∈ P) : c.pod.id < freshId :=
-  hc.snap.id_lt (List.mem_map.2 ⟨c, hm, rfl⟩)
+theorem id_lt (hc : PodsCtx setName P) {c : CPod} (hm : c ∈ P) : c.pod.id < freshId := hc.ids.lt c hm
 
 theorem ord_inj (hc : PodsCtx setName P) {a b : CPod} (ha : a ∈ P) (hb : b ∈ P) (h : a.pod.ord = b.pod.ord) : a = b :=
   ord_inj_of_nodup hc.ords ha hb h
@@ -43,11 +25,14 @@ theorem pod_inj (hc : PodsCtx setName P) {a b : CPod} (ha : a ∈ P) (hb : b ∈
   hc.ord_inj ha hb (by rw [h])
 
 theorem id_inj (hc : PodsCtx setName P) {a b : CPod} (ha : a ∈ P) (hb : b ∈ P) (h : a.pod.id = b.pod.id) : a = b :=
-  hc.pod_inj ha hb (hc.snap.id_inj (List.mem_map.2 ⟨a, ha, rfl⟩) (List.mem_map.2 ⟨b, hb, rfl⟩) h)
+  hc.ids.inj a ha b hb h
+
+theorem ordNodup (hc : PodsCtx setName P) : ((P.map (·.pod)).map (·.ord)).Nodup := by
+  rw [List.map_map]; exact hc.ords
 
 theorem slot_of_mem (hc : PodsCtx setName P) {b : Int} {E : List Int} {c : CPod} (hm : c ∈ P)
     (hr : inRange b E c.pod.ord = true) : slotOf b E (P.map (·.pod)) c.pod.ord = some c.pod := by
-  have hnd : ((P.map (·.pod)).map (·.ord)).Nodup := hc.snap.ordNodup
+  have hnd : ((P.map (·.pod)).map (·.ord)).Nodup := hc.ordNodup
   rw [← podAt_eq_slotOf hnd hr]
   unfold podAt
   apply find_unique _ _ c.pod (List.mem_map.2 ⟨c, hm, rfl⟩) (by simp)
